@@ -1,0 +1,34 @@
+//go:build verif
+
+package tls
+
+// Exports for the C23 check: drive the event queue of a UQUICConn (quicWriteCryptoData, the
+// non-data event appenders, NextEvent) without running a handshake.
+
+// VerifQUICQueue wraps a fresh, never started UQUICConn.
+type VerifQUICQueue struct{ q *UQUICConn }
+
+func VerifNewQUICQueue() *VerifQUICQueue {
+	return &VerifQUICQueue{q: UQUICClient(&QUICConfig{TLSConfig: &Config{}}, HelloCustom)}
+}
+
+// Write is what the handshake does for every outgoing handshake message.
+func (v *VerifQUICQueue) Write(level QUICEncryptionLevel, data []byte) {
+	v.q.conn.quicWriteCryptoData(level, data)
+}
+
+// Secret appends a read (write=false) or write secret event.
+func (v *VerifQUICQueue) Secret(write bool, level QUICEncryptionLevel, secret []byte) {
+	if write {
+		v.q.conn.quicSetWriteSecret(level, 0x1301, secret)
+	} else {
+		v.q.conn.quicSetReadSecret(level, 0x1301, secret)
+	}
+}
+
+// Params appends a QUICTransportParameters event; Done appends QUICHandshakeDone.
+func (v *VerifQUICQueue) Params(p []byte) { v.q.conn.quicSetTransportParameters(p) }
+func (v *VerifQUICQueue) Done()           { v.q.conn.quicHandshakeComplete() }
+
+// Next is UQUICConn.NextEvent.
+func (v *VerifQUICQueue) Next() QUICEvent { return v.q.NextEvent() }
